@@ -109,7 +109,7 @@ impl Property for C14 {
     type Scenario = Scenario;
 
     fn rule() -> String {
-        "seeded simulations of 2-4 hosts on healthy links (fail_rate 0, no partitions/holds): numbered UDP datagrams (bursts of 1-5 within one instant) and framed single-segment TCP messages incl. SYNs and FINs between random ordered pairs, send instants at any whole millisecond inside a step, tick 1-20 ms, global min/max latency (aligned and unaligned, fixed and ranges), latency curve, random host order on/off, IPv4/IPv6; the controller applies 0-4 overrides before the first step or mid-run: set_link_latency / set_link_max_message_latency by name, IP string, IpAddr or regex host sets, set_max_message_latency, set_message_latency_curve. Oracle (reference latency timeline keyed by global event order): every message is received; receipt.sim_elapsed - send.sim_elapsed lies in [min_eff - tick, max_eff + tick] where (min_eff,max_eff) is the per-link override in force at the send event, else the global pair (TCP data/FIN upper bound: the latest bound of any earlier segment of the same stream direction, since a stream is read in order); messages to one socket sent under the same fixed latency are received in send order. Non-trivial: an override was applied mid-run with a later send on that link, or >=2 messages from one host to another within one step; distinct = digest of (message kind, delay in ticks, which setting applied)".into()
+        "seeded simulations of 2-4 hosts on healthy links (fail_rate 0, no partitions/holds): numbered UDP datagrams (bursts of 1-5 within one instant) and framed single-segment TCP messages incl. SYNs and FINs between random ordered pairs, send instants at any whole millisecond inside a step, tick 1-20 ms, global min/max latency (aligned and unaligned, fixed and ranges), latency curve, random host order on/off, IPv4/IPv6; the controller applies 0-4 overrides before the first step or mid-run: set_link_latency / set_link_max_message_latency by name, IP string, IpAddr or regex host sets, set_max_message_latency, set_message_latency_curve. Oracle (reference latency timeline keyed by global event order): every message is received; receipt.sim_elapsed - send.sim_elapsed lies in [min_eff - tick, max_eff + tick] where (min_eff,max_eff) is the per-link override in force at the send event, else the global pair (TCP data/FIN upper bound: the latest bound of any earlier segment of the same stream direction, since a stream is read in order); messages to one socket sent under the same fixed latency are received in send order. Non-trivial: an override was applied mid-run with a later send on that link, or >=2 messages from one host to another within one step; distinct = digest of (message kind, delay in ticks, which setting applied). Added later: Sim::set_link_fail_rate(a, b, 0.0) and Sim::set_fail_rate(0.0) among the overrides (links stay healthy; no latency setting may change through them).".into()
     }
     fn components_real() -> Vec<&'static str> {
         vec!["turmoil: Builder, Sim::step/host/links setters (set_link_latency, set_link_max_message_latency, set_max_message_latency, set_message_latency_curve), Topology/Link (latency sampling, maturing, delivery), net::UdpSocket, net::TcpListener/TcpStream, per-host clocks (sim_elapsed)"]
